@@ -9,7 +9,7 @@
    session can move (it waits for the client or the service). *)
 From Coq Require Import List Arith.
 Import ListNotations.
-From Onet Require Import Api.Stream Api.StreamProofs.
+From Onet Require Import Api.Stream Api.StreamProofs Corr.C15 Api.StreamCheckProofs.
 
 (* ---- the server does not crash -------------------------------------------- *)
 
@@ -180,3 +180,14 @@ Theorem c15_explain_fixed_never_crashed : forall m0 n evs res,
   explain fixed m0 n evs = Some res -> forall s, In s res -> crashed s = false.
 Proof. exact explain_fixed_never_crashed. Qed.
 Print Assumptions c15_explain_fixed_never_crashed.
+
+(* ---- the property checker run on the implementation's observations ----------- *)
+
+(* check (clause numbers violated by an observed scenario) is empty exactly when the
+   observation satisfies the property as stated on events: no crash; per session
+   order / no invention, completeness + normal close when the service ended and the
+   client stayed, stop for every request when the client left first; no goroutine
+   left once everything is over *)
+Theorem c15_check_spec : forall c, check c = [] <-> spec c.
+Proof. exact check_spec. Qed.
+Print Assumptions c15_check_spec.
